@@ -638,14 +638,20 @@ func runC12Round4(c *Ctx) {
 							if cc, isCall := v.(*ssa.Call); isCall && cc.Call.IsInvoke() && cc.Call.Method.Name() == "Kind" {
 								ok = true
 								if strip(cc.Call.Value) == ssa.Value(to) {
-									direct = true
-									// … on the side where the data itself is an expanded value?
+									// … on the side where the data itself is an expanded value, or on the other side?
+									// (each side needs its own flattening: the one does not stand in for the other)
+									onExpanded := false
 									for _, g2 := range guardsOf(ci.Block()) {
 										if ex, isEx := g2.Cond.(*ssa.Extract); isEx && g2.Branch {
 											if ta, isTA := ex.Tuple.(*ssa.TypeAssert); isTA && namedOf(ta.AssertedType) == ev {
-												directExpanded = true
+												onExpanded = true
 											}
 										}
+									}
+									if onExpanded {
+										directExpanded = true
+									} else {
+										direct = true
 									}
 								}
 							}
